@@ -101,7 +101,7 @@ EXTRA = {
  'C06': "Also: every position written by an explicit reset is persisted in the same hold. A consumer group is opened (positions lifted to the queue-wide ack read at that moment) and registered in ONE write hold of the map lock that Sync reads under.",
  'C07': "Also: a consumer group is empty only when appended <= ACKNOWLEDGED (never the consumed position), and the expiry of a partition asks every group: a family log is not collected while applied-but-unflushed entries exist. Once one group answered non-empty, IsExpire can only return false (path-sensitive boolean constant propagation); the id sequences are synced before the metadata dictionaries are flushed (rule shared with C09). The sequence key of a local replicator is the channel's leader and a flusher records every sequence it is given (0 included); an entry's sequence must be committed inside the write bracket of its rows — the one call site that does not is the recorded finding F28.",
  'C08': "Also: the queue-level barrier is the minimum over the groups' ACKNOWLEDGED positions (rule shared with C06); index<->sequence conversions of the replicator are inverse pairs (AppendIndex/ResetAppendIndex, ReplicaIndex/ResetReplicaIndex, ack without offset); every Ready exit of the handshake passed closeStream() (a stream of the failed period is never re-used). The leader's family log is reported expired only when every consumer group is drained: after a group answered non-empty no return of IsExpire can yield true (path-sensitive boolean constant propagation over the flag, whatever its form).",
- 'C09': "Also: the flush life-cycle rules are shared with C10; the flush version handed to the resolver is the value read (under the lock) before the unlocked lookup. Schema flush marks persisted exactly what it wrote (genuine defect F16, fixed); the schema compaction merger accumulates each metric into a fresh object, or a reused one with every list Unmarshal appends to emptied first. PrepareFlush never installs an immutable store that Flush would skip and keep (F17, fixed).",
+ 'C09': "Also: the flush life-cycle rules are shared with C10; the flush version handed to the resolver is the value read (under the lock) before the unlocked lookup. Schema flush marks persisted exactly what it wrote (genuine defect F16, fixed); the schema compaction merger accumulates each metric into a fresh object, or a reused one with every list Unmarshal appends to emptied first. PrepareFlush never installs an immutable store that Flush would skip and keep (F17, fixed). GenSeriesID has no failing exit after the id was registered (a refusal happens inside the create callback; F30, fixed).",
  'C10': "Also: every index reader reads the memory stores BEFORE it picks the snapshot (entries only move memory -> kv store; the opposite order was genuine defects F9/F11, fixed); the universe of NOT is read for the tag key the atomic filter reports, also when nothing matched; an atom that matches no value yields an empty set, not an error; prepare-flush/flush life cycle of the four memory stores. Group-by resolution asks every grouping scanner of every tag key (no break / return out of the scan); the dictionary create path re-checks mutable AND immutable store under the write lock (rule shared with C09). The run of container i in a persisted forward index starts after the runs of ALL containers before it (lookup table = running sum; F18, fixed); a persisted regex lookup narrows its candidate keys by the literal prefix only for an anchored expression (F19, fixed); no like-pattern is sliced out of range (F20, fixed); a swapped store is always drained (F17, fixed; shared with C09).",
  'C11': "Also: memory is filtered before the file snapshot is taken; a not-found answer of one part (mutable / immutable memory database, files) never discards the other parts (genuine defect F12, fixed); flush writes one positional entry per field for every series (data or empty). The end marker of a field's write buffer only grows (F13, fixed); AggType.Aggregate receives (stored, incoming) in write order at every call site (F14, fixed); a single-field block is delivered under the query position of its field (F15, fixed); a source block hands out field data only for a held field id (rule shared with C03); the per-family aggregator covers [(base+start)/ratio, (base+end)/ratio], both bounds mapped by the emitter's own expression. Memory data is delivered under the QUERY's field meta; the forward-only TSD cursor is asked for every slot and every value is consumed; the two directions of the memory series index are collected together (F27, fixed).",
  'C12': "Also: the tag-value lookups return only the errors of the dictionary read: an OR/NOT atom that matches nothing on one node is an empty set, so the node does not answer 'not found' for series matching the rest of the condition. A per-shard plan node whose operator can produce ErrNotFound (call graph, CHA through interfaces, only functions that can hand a non-nil error back) is created with NewPlanNodeWithIgnore; the automatic group-by interval is derived from the ALIGNED time range, so planning the root's statement again on an intermediate node yields the same interval.",
